@@ -231,7 +231,7 @@ def run_scenario(desc, keep_events=0, event_kinds=None, pre_ops=None) -> RunReco
     cls = install.OPTIMIZERS[desc["optimizer"]]
     task = tasks.build_task(desc["task"])
     cfg = make_config(desc["optimizer"], desc["config"])
-    opt = cls(cfg)
+    opt = cls(cfg, debug=True) if desc.get("debug") else cls(cfg)
     rec.optimizer, rec.config_obj, rec.task_obj = opt, cfg, task
     import pyvolutionary.abstract as _abs
     rec.base_init = getattr(cls._init_population, "__wrapped__", cls._init_population) is \
